@@ -13,7 +13,9 @@
                            BOOL=0 INT=1 FLOAT=2 VARCHAR=3
   classifyWhich            models.classify_catalog: which of the returned lists (1, 2, 3 = position in the
                            return tuple, 0 = none) an object of class code c goes to
-                           other=0 SimpleSource=1 IslandSource=2 ComponentSource=3 (isinstance honours subclassing)
+                           other=0 SimpleSource=1 IslandSource=2 ComponentSource=3, instances of USER SUBCLASSES of
+                           these three = 4, 5, 6: `isinstance` admits them, exact-class tests (`type(x) is C`,
+                           `x.__class__ == C`, a dict keyed on the class) do not
 
 The slices are written as small Python functions (int-mode whitelist of py2lean) into a scratch file; whatever the
 slicer cannot read is written as a call the translator rejects, so that piece is reported UNTRANSLATABLE and the
@@ -32,8 +34,14 @@ PYTYPES = {'bool': [0], 'int': [0, 1], 'float': [2], 'str': [3],
            'np.int64': [1], 'np.int32': [1], 'np.int16': [1], 'np.integer': [1], 'numpy.int64': [1], 'numpy.int32': [1],
            'np.float64': [2], 'np.float32': [2], 'np.floating': [2], 'numpy.float64': [2], 'numpy.float32': [2],
            'np.str_': [3], 'np.bool_': [0]}
-CLASSES = {'ComponentSource': [3], 'IslandSource': [2], 'SimpleSource': [1, 2, 3],
-           'models.ComponentSource': [3], 'models.IslandSource': [2], 'models.SimpleSource': [1, 2, 3]}
+# class codes: other 0, SimpleSource 1, IslandSource 2, ComponentSource 3, and instances of USER SUBCLASSES of
+# these three: 4, 5, 6.  `isinstance` admits the subclasses, an exact-class test (`type(x) is C`, `x.__class__ == C`,
+# a dict keyed on the class) does not.
+CLASSES = {'ComponentSource': [3, 6], 'IslandSource': [2, 5], 'SimpleSource': [1, 2, 3, 4, 5, 6]}
+CLASSES.update({'models.' + k: v for k, v in list(CLASSES.items())})
+EXACT = {'ComponentSource': [3], 'IslandSource': [2], 'SimpleSource': [1]}
+EXACT.update({'models.' + k: v for k, v in list(EXACT.items())})
+NCLS = 7
 KINDS = {'b': 0, 'i': 1, 'f': 2, 'U': 3, 'S': 4, 'O': 5, 'u': 6}
 SQL = {'BOOL': 0, 'INT': 1, 'FLOAT': 2, 'VARCHAR': 3}
 
@@ -63,18 +71,36 @@ def _isinstance_test(test, var_srcs, table, varname):
     neg = False
     if isinstance(test, ast.UnaryOp) and isinstance(test.op, ast.Not):
         neg, test = True, test.operand
-    if not (isinstance(test, ast.Call) and ast.unparse(test.func) == 'isinstance' and len(test.args) == 2
-            and not test.keywords and ast.unparse(test.args[0]) in var_srcs):
-        return None
-    ts = test.args[1].elts if isinstance(test.args[1], ast.Tuple) else [test.args[1]]
     tags = set()
-    for t in ts:
-        key = ast.unparse(t)
-        if key not in table:
-            raise Unreadable(f'type {key} is not in the tag table')
-        tags.update(table[key])
+    if isinstance(test, ast.Compare) and len(test.ops) == 1 and table is CLASSES and \
+            ast.unparse(test.left) in {f'type({v})' for v in var_srcs} | {f'{v}.__class__' for v in var_srcs}:
+        # exact-class test: `type(x) is C`, `x.__class__ == C`, `type(x) in (C, D)`  (subclass instances do NOT match)
+        op, right = test.ops[0], test.comparators[0]
+        if isinstance(op, (ast.Is, ast.Eq)):
+            ts = [right]
+        elif isinstance(op, ast.In) and isinstance(right, (ast.Tuple, ast.List, ast.Set)):
+            ts = list(right.elts)
+        elif isinstance(op, (ast.IsNot, ast.NotEq)):
+            ts, neg = [right], not neg
+        else:
+            return None
+        for t in ts:
+            key = ast.unparse(t)
+            if key not in EXACT:
+                raise Unreadable(f'class {key} is not in the tag table')
+            tags.update(EXACT[key])
+    else:
+        if not (isinstance(test, ast.Call) and ast.unparse(test.func) == 'isinstance' and len(test.args) == 2
+                and not test.keywords and ast.unparse(test.args[0]) in var_srcs):
+            return None
+        ts = test.args[1].elts if isinstance(test.args[1], ast.Tuple) else [test.args[1]]
+        for t in ts:
+            key = ast.unparse(t)
+            if key not in table:
+                raise Unreadable(f'type {key} is not in the tag table')
+            tags.update(table[key])
     if neg:                                   # the tag universes are finite: say the complement positively
-        universe = set(range(5)) if table is PYTYPES else set(range(4))
+        universe = set(range(5)) if table is PYTYPES else set(range(NCLS))
         tags = universe - tags
         if not tags:
             raise Unreadable('test that is never true')
@@ -394,8 +420,15 @@ def _classify_slice(tree):
         if len(loops) != 1 or not isinstance(loops[0].target, ast.Name) or ast.unparse(loops[0].iter) != f.args.args[0].arg \
                 or loops[0].orelse:
             raise Unreadable('not a single pass `for x in catalog`')
-        for s in body:                               # everything else must be `name = []` or the return
+        dispatch = {}                                # name -> {class name: list name}: `bins = {Cls: lst, …}`
+        for s in body:                               # everything else must be `name = []`, such a dict, or the return
             if s is loops[0] or isinstance(s, ast.Return):
+                continue
+            if isinstance(s, ast.Assign) and len(s.targets) == 1 and isinstance(s.targets[0], ast.Name) \
+                    and isinstance(s.value, ast.Dict) and s.value.keys and \
+                    all(k is not None and ast.unparse(k) in EXACT for k in s.value.keys) and \
+                    all(isinstance(x, ast.Name) and x.id in pos for x in s.value.values):
+                dispatch[s.targets[0].id] = [(ast.unparse(k), x.id) for k, x in zip(s.value.keys, s.value.values)]
                 continue
             if isinstance(s, ast.Assign) and all(isinstance(t, ast.Name) and t.id in pos for t in s.targets) \
                     and ast.unparse(s.value) in ('[]', 'list()'):
@@ -405,6 +438,25 @@ def _classify_slice(tree):
         lb = list(loops[0].body)
         lines = []
         ind = '    '
+        # exact-class dispatch through a dict:  d = bins.get(type(x) | x.__class__[, None]);  if d is not None: d.append(x)
+        if len(lb) == 2 and isinstance(lb[0], ast.Assign) and len(lb[0].targets) == 1 and isinstance(lb[0].targets[0], ast.Name) \
+                and isinstance(lb[0].value, ast.Call) and isinstance(lb[0].value.func, ast.Attribute) \
+                and lb[0].value.func.attr == 'get' and ast.unparse(lb[0].value.func.value) in dispatch \
+                and 1 <= len(lb[0].value.args) <= 2 and ast.unparse(lb[0].value.args[0]) in (f'type({v})', f'{v}.__class__') \
+                and (len(lb[0].value.args) == 1 or ast.unparse(lb[0].value.args[1]) == 'None') \
+                and isinstance(lb[1], ast.If) and not lb[1].orelse and len(lb[1].body) == 1:
+            d = lb[0].targets[0].id
+            if ast.unparse(lb[1].test) not in (f'{d} is not None', f'{d} != None') or \
+                    ast.unparse(lb[1].body[0]) != f'{d}.append({v})':
+                raise Unreadable('dict dispatch body')
+            first = True
+            for cname, lst in dispatch[ast.unparse(lb[0].value.func.value)]:
+                lines.append(f"{ind}{'if' if first else 'elif'} ({' or '.join(f'c == {k}' for k in EXACT[cname])}):")
+                lines.append(f'{ind}    which = {pos[lst]}')
+                first = False
+            return head + "\n".join(lines) + "\n    return which\n"
+        if dispatch:
+            raise Unreadable('class dictionary used in an unrecognised way')
         # leading `if not isinstance(x, T): continue`
         while lb and isinstance(lb[0], ast.If) and not lb[0].orelse and len(lb[0].body) == 1 \
                 and isinstance(lb[0].body[0], ast.Continue):
